@@ -97,6 +97,8 @@ def gen_bus(rng, n_ops):
             now += int(rng.integers(1, 40)); ops.append("run %d" % now)
         elif k == 10:
             late = ["adv late Imu", "sub imu 999", "init", "run %d" % now]
+            if not have_logger:   # the topology may still change: late subscribers, also on topics nobody listened to so far
+                late += ["sub %s %d" % (t, 2000 + len(ops)) for t in topics]
             if have_logger:
                 late += ["decl 0 late/p 1", "logger"]      # rejected: the bus is locked
             ops.append(str(rng.choice(late)))
@@ -343,6 +345,20 @@ def search(ctx):
         ts = [int(r.split("|")[0]) for r in rows]
         if any(b < a for a, b in zip(ts, ts[1:])):
             report("bus:log-time", "logger rows are not in non-decreasing time order", {"history": h, "times": ts})
+        # one row per logging period: wake-up times follow the CURRENT value of logger/dt
+        exp_t = []; nxt = None; per = 5; nowt = 0
+        for line, rep in zip(h, real):
+            w = line.split()
+            if w[0] == "logger" and rep == "ok": nxt = nowt
+            if w[0] == "set" and rep == "ok" and w[1] == "logger/dt": per = int(w[2])
+            if w[0] == "run" and rep == "ok":
+                if nxt is not None:
+                    while nxt < int(w[1]):
+                        exp_t.append(nxt); nxt += per
+                nowt = int(w[1])
+        if ts != exp_t:
+            report("bus:log-period", "logger rows are not one per logging period (the current logger/dt)", {"history": h, "row_times": ts[:80], "expected": exp_t[:80]},
+                   obligation="theorem:C20.tick_row")
         # parameter propagation: after the last accepted broadcast every follower's cache equals the core value
         vals = {}; follows = set(subs.get("params", [])); cache0 = {}
         inited = False
